@@ -76,6 +76,8 @@ func TestCheck(t *testing.T) {
 			})
 			r.Require(r.Counter("realtime_silences_slept") >= 50, "the real-time variant did not sleep through real silences")
 		}
+		returnDuringCleanup(r)
+		r.Require(r.Counter("return_overlaps_achieved") >= int64(r.N(50, 500)) && r.Counter("return_overlaps_confirmed_by_goroutine_dump") >= 10, "too few returns actually overlapped the clean-up goroutine")
 		r.Require(r.Counter("histories") >= 100, "too few histories")
 		r.Require(r.Counter("reclaimed_with_conditions") >= 100 && r.Counter("reclaimed_with_counts") >= 100, "too few dead instances with recorded state were reclaimed")
 		r.Require(r.Counter("reclaimed_first_report_only") >= 20, "the empty-label (first report only) case was not exercised")
@@ -85,10 +87,13 @@ func TestCheck(t *testing.T) {
 	})
 }
 
-const (
-	allocSchema = "alloc"
-	countSchema = "cnt"
-)
+const allocSchema = "alloc"
+
+// A "count key" is upstream + "/" + name of a globalCount max-in-flight schema. Every upstream carries 1-3 of those next to
+// 0-4 globalCount token-bucket schemas (which keep no per-instance state but sit in the same flow-control map the server
+// walks when it releases an instance's counts) and the globalAllocate schema.
+func keyUp(key string) string     { return key[:strings.LastIndex(key, "/")] }
+func keySchema(key string) string { return key[strings.LastIndex(key, "/")+1:] }
 
 type inst struct {
 	id       string
@@ -107,7 +112,9 @@ type history struct {
 	srv        *bed.LimiterServer
 	ups        []string
 	allocMax   map[string]int32
-	countMax   map[string]int32
+	countMax   map[string]int32    // count key -> limit
+	cnts       map[string][]string // upstream -> its count keys
+	tbs        map[string]int      // upstream -> number of token-bucket count schemas
 	insts      []*inst
 	nextID     int
 	trace      []string
@@ -135,28 +142,49 @@ func (h *history) violate(sig, what string) {
 }
 
 func newHistory(r *vkit.R, g *vkit.Rand, i int) *history {
-	h := &history{r: r, g: g, allocMax: map[string]int32{}, countMax: map[string]int32{}}
+	h := &history{r: r, g: g, allocMax: map[string]int32{}, countMax: map[string]int32{}, cnts: map[string][]string{}, tbs: map[string]int{}}
 	h.srv = bed.NewLimiterServer(bed.LimiterOptions{LeadAll: true, Shards: 1 + i%3})
 	nu := 1 + g.Intn(2)
 	for u := 0; u < nu; u++ {
 		name := fmt.Sprintf("up%d-%d", i%11, u)
 		h.ups = append(h.ups, name)
 		h.allocMax[name] = g.PickI32([]int32{20, 100, 1000, 10000})
-		h.countMax[name] = g.PickI32([]int32{5, 20, 100})
 		c := &proxyv1alpha1.UpstreamCluster{ObjectMeta: metav1.ObjectMeta{Name: name}}
 		c.Spec.FlowControl.Schemas = []proxyv1alpha1.FlowControlSchema{
 			{Name: allocSchema, Strategy: proxyv1alpha1.GlobalAllocateLimit, FlowControlSchemaConfiguration: proxyv1alpha1.FlowControlSchemaConfiguration{
 				GlobalMaxRequestsInflight: &proxyv1alpha1.MaxRequestsInflightFlowControlSchema{Max: h.allocMax[name]}}},
-			{Name: countSchema, Strategy: proxyv1alpha1.GlobalCountLimit, FlowControlSchemaConfiguration: proxyv1alpha1.FlowControlSchemaConfiguration{
-				GlobalMaxRequestsInflight: &proxyv1alpha1.MaxRequestsInflightFlowControlSchema{Max: h.countMax[name]}}},
 		}
+		for k, nm := 0, g.Range(1, 3); k < nm; k++ {
+			key := fmt.Sprintf("%s/cnt%d", name, k)
+			h.cnts[name] = append(h.cnts[name], key)
+			h.countMax[key] = g.PickI32([]int32{5, 20, 100})
+			c.Spec.FlowControl.Schemas = append(c.Spec.FlowControl.Schemas, proxyv1alpha1.FlowControlSchema{Name: keySchema(key), Strategy: proxyv1alpha1.GlobalCountLimit,
+				FlowControlSchemaConfiguration: proxyv1alpha1.FlowControlSchemaConfiguration{GlobalMaxRequestsInflight: &proxyv1alpha1.MaxRequestsInflightFlowControlSchema{Max: h.countMax[key]}}})
+		}
+		nt := g.Range(2, 4)
+		if g.Chance(0.25) {
+			nt = g.Range(0, 1)
+		}
+		h.tbs[name] = nt
+		for k := 0; k < nt; k++ {
+			c.Spec.FlowControl.Schemas = append(c.Spec.FlowControl.Schemas, proxyv1alpha1.FlowControlSchema{Name: fmt.Sprintf("tb%d", k), Strategy: proxyv1alpha1.GlobalCountLimit,
+				FlowControlSchemaConfiguration: proxyv1alpha1.FlowControlSchemaConfiguration{GlobalTokenBucket: &proxyv1alpha1.TokenBucketFlowControlSchema{QPS: 100, Burst: 100}}})
+		}
+		if nt > 0 {
+			r.Count("upstreams_with_token_bucket_next_to_max_inflight", 1)
+		}
+		sh := make([]proxyv1alpha1.FlowControlSchema, 0, len(c.Spec.FlowControl.Schemas))
+		for _, idx := range g.Perm(len(c.Spec.FlowControl.Schemas)) {
+			sh = append(sh, c.Spec.FlowControl.Schemas[idx])
+		}
+		c.Spec.FlowControl.Schemas = sh
 		// upstreams are registered before anything else happens (rateLimiter.upstreamLock is an unsynchronised map)
 		if err := h.srv.ApplyUpstream(c); err != nil {
 			r.Inconclusive("ApplyUpstream failed: " + err.Error())
 			return nil
 		}
 	}
-	h.logf("server with %d shard(s); upstreams %v alloc limits %v count limits %v", h.srv.Shards, h.ups, h.allocMax, h.countMax)
+	h.logf("server with %d shard(s); upstreams %v alloc limits %v; globalCount max-in-flight limits %v; globalCount token-bucket schemas per upstream %v", h.srv.Shards, h.ups, h.allocMax, h.countMax, h.tbs)
 	return h
 }
 
@@ -202,26 +230,29 @@ func (h *history) snap() snapshot {
 			}
 			s.cond[id][up] = q
 		}
-		fc, err := st.GetFlowControl(up, countSchema)
-		if err != nil {
-			continue
-		}
-		m := debugRe.FindStringSubmatch(fc.DebugInfo())
-		if m == nil {
-			s.bad = "DebugInfo does not parse: " + fc.DebugInfo()
-			continue
-		}
-		cnt, _ := strconv.ParseInt(m[3], 10, 64)
-		tot, _ := strconv.ParseInt(m[4], 10, 64)
-		if cnt != tot {
-			s.bad = fmt.Sprintf("upstream %s: running total %d but per-instance counts sum to %d (%s)", up, cnt, tot, m[5])
-		}
-		for _, x := range detailRe.FindAllStringSubmatch(m[5], -1) {
-			v, _ := strconv.ParseInt(x[2], 10, 64)
-			if s.count[x[1]] == nil {
-				s.count[x[1]] = map[string]int64{}
+		for _, key := range h.cnts[up] { // EVERY max-in-flight count flow control of the upstream
+			fc, err := st.GetFlowControl(up, keySchema(key))
+			if err != nil {
+				s.bad = "flow control " + key + " not found"
+				continue
 			}
-			s.count[x[1]][up] = v
+			m := debugRe.FindStringSubmatch(fc.DebugInfo())
+			if m == nil {
+				s.bad = "DebugInfo does not parse: " + fc.DebugInfo()
+				continue
+			}
+			cnt, _ := strconv.ParseInt(m[3], 10, 64)
+			tot, _ := strconv.ParseInt(m[4], 10, 64)
+			if cnt != tot {
+				s.bad = fmt.Sprintf("%s: running total %d but per-instance counts sum to %d (%s)", key, cnt, tot, m[5])
+			}
+			for _, x := range detailRe.FindAllStringSubmatch(m[5], -1) {
+				v, _ := strconv.ParseInt(x[2], 10, 64)
+				if s.count[x[1]] == nil {
+					s.count[x[1]] = map[string]int64{}
+				}
+				s.count[x[1]][key] = v
+			}
 		}
 	}
 	return s
@@ -300,22 +331,23 @@ func (h *history) report(w *inst, up string) {
 	h.logf("report %s %s used=%d -> quota %d", w.id, up, used, w.quota[up])
 }
 
-func (h *history) acquire(w *inst, up string, n int32) (applied bool) {
+func (h *history) acquire(w *inst, key string, n int32) (applied bool) {
+	up := keyUp(key)
 	w.reqID++
 	req := &proxyv1alpha1.RateLimitAcquire{ObjectMeta: metav1.ObjectMeta{Name: up},
 		Spec: proxyv1alpha1.RateLimitAcquireSpec{Instance: w.id, RequestID: w.reqID,
-			Requests: []proxyv1alpha1.RateLimitAcquireRequest{{FlowControl: countSchema, Tokens: n}}}}
+			Requests: []proxyv1alpha1.RateLimitAcquireRequest{{FlowControl: keySchema(key), Tokens: n}}}}
 	var res *proxyv1alpha1.RateLimitAcquire
 	var err error
 	if p := vkit.Safely(func() { res, err = h.srv.Limiter.DoAcquire(up, req) }); p != nil || err != nil || res == nil || len(res.Status.Results) != 1 || res.Status.Results[0].Error != "" {
 		h.r.Count("call_errors", 1)
-		h.logf("acquire %s %s %d failed: %v %v", w.id, up, n, p, err)
+		h.logf("acquire %s %s %d failed: %v %v", w.id, key, n, p, err)
 		return false
 	}
 	rs := res.Status.Results[0]
-	w.count[up] = rs.Limit // the count on record after the call (asked when applied, previous when refused)
+	w.count[key] = rs.Limit // the count on record after the call (asked when applied, previous when refused)
 	h.r.Count("acquires", 1)
-	h.logf("acquire %s %s count=%d -> accept=%v on record %d", w.id, up, n, rs.Accept, rs.Limit)
+	h.logf("acquire %s %s count=%d -> accept=%v on record %d", w.id, key, n, rs.Accept, rs.Limit)
 	return rs.Limit == n
 }
 
@@ -343,7 +375,9 @@ func (h *history) comeBack(w *inst) {
 			delete(w.quota, up)
 			delete(w.reports, up)
 		}
-		w.count[up] = int32(s.count[w.id][up])
+		for _, key := range h.cnts[up] {
+			w.count[key] = int32(s.count[w.id][key])
+		}
 	}
 	h.logf("back %s (same identity); on record: conditions %v counts %v", w.id, s.cond[w.id], s.count[w.id])
 }
@@ -510,7 +544,7 @@ func (h *history) passUnknown() {
 				withCond = "also-reporting"
 			}
 			h.violate("C18/dead-instance/count-kept/"+withCond,
-				fmt.Sprintf("instance %s stayed silent through a timeout pass and a later unknown-condition pass, the %s flow control of %s still lists it with count %d", w.id, countSchema, up, c))
+				fmt.Sprintf("instance %s stayed silent through a timeout pass and a later unknown-condition pass, the max-in-flight flow control %s still lists it with count %d (the upstream also has %d globalCount token-bucket schemas)", w.id, up, c, h.tbs[keyUp(up)]))
 			return
 		}
 		h.r.Count("reclaimed", 1)
@@ -539,22 +573,24 @@ func (h *history) freedCapacity() {
 	w := live[h.g.Intn(len(live))]
 	up := h.ups[h.g.Intn(len(h.ups))]
 	_ = h.srv.Limiter.Heartbeat(w.id)
-	var others int64
-	for _, o := range h.insts { // silent-but-not-yet-dead instances legitimately still hold their counts
-		if o != w {
-			others += int64(o.count[up])
+	for _, key := range h.cnts[up] {
+		var others int64
+		for _, o := range h.insts { // silent-but-not-yet-dead instances legitimately still hold their counts
+			if o != w {
+				others += int64(o.count[key])
+			}
 		}
-	}
-	free := int64(h.countMax[up]) - others
-	if free > int64(w.count[up]) {
-		prev := w.count[up]
-		h.r.Count("freed_capacity_probes", 1)
-		if !h.acquire(w, up, int32(free)) {
-			h.violate("C18/freed-capacity/count-not-available",
-				fmt.Sprintf("after the dead instances were reclaimed the known instances hold %d of %d on %s/%s, yet %s asking for the remaining %d was refused (on record: %d)", others+int64(prev), h.countMax[up], up, countSchema, w.id, free, w.count[up]))
-			return
+		free := int64(h.countMax[key]) - others
+		if free > int64(w.count[key]) {
+			prev := w.count[key]
+			h.r.Count("freed_capacity_probes", 1)
+			if !h.acquire(w, key, int32(free)) {
+				h.violate("C18/freed-capacity/count-not-available",
+					fmt.Sprintf("after the dead instances were reclaimed the known instances hold %d of %d on %s, yet %s asking for the remaining %d was refused (on record: %d)", others+int64(prev), h.countMax[key], key, w.id, free, w.count[key]))
+				return
+			}
+			h.acquire(w, key, prev)
 		}
-		h.acquire(w, up, prev)
 	}
 	// allocate strategy: once every remaining instance has reported again the recorded allocated sum is the sum of THEIR quotas
 	for _, o := range h.insts {
@@ -603,7 +639,8 @@ func (h *history) run() {
 			h.report(live[h.g.Intn(len(live))], up)
 		case x < 52 && len(live) > 0:
 			w := live[h.g.Intn(len(live))]
-			h.acquire(w, up, int32(h.g.Range(0, int(h.countMax[up])/2+1)))
+			key := h.cnts[up][h.g.Intn(len(h.cnts[up]))]
+			h.acquire(w, key, int32(h.g.Range(0, int(h.countMax[key])/2+1)))
 		case x < 64 && len(live) > 0:
 			h.silence(live[h.g.Intn(len(live))])
 		case x < 76:
@@ -633,4 +670,133 @@ func (h *history) run() {
 	if !h.dead {
 		h.passUnknown()
 	}
+}
+
+// returnDuringCleanup: an instance that was found dead comes back with its old identity WHILE the goroutine of the timeout
+// pass is still releasing its state (the heartbeat is sent right after CleanupTimeoutClient() returns; the instance holds
+// labelled conditions and counts on several upstreams so that the goroutine has work to do). Whether the overlap really
+// happened is read off the goroutine count / dump taken AFTER the heartbeat (goroutine still there => the heartbeat preceded
+// its end) and counted. The attempts run one at a time, after all other histories, so the dump is unambiguous.
+//
+// What is judged is only what must hold however the two interleave (the line drawn for the window itself is in the comment
+// on noCleanupGoroutine's use in passTimeout): from its return on the instance "keeps sending heartbeats", so
+//   - its heartbeat record (time >= the return) is still there once the goroutine has finished, and
+//   - what it reports AFTER the goroutine has finished survives an unknown-condition pass (no further heartbeat is sent in
+//     between; the one from its return is microseconds old).
+//
+// State the instance reports while the goroutine is still running is not judged: the server is in the middle of reclaiming
+// that identity (first sentence of the statement) and cannot tell the two apart.
+func returnDuringCleanup(r *vkit.R) {
+	n := r.N(250, 2500)
+	r.Parallel(n, 1, func(i int, g *vkit.Rand) {
+		if !vkit.WaitFor(5*time.Second, noCleanupGoroutine) {
+			r.Inconclusive("a cleanupTimeoutClient goroutine of an earlier history never finished")
+			return
+		}
+		h := &history{r: r, g: g, allocMax: map[string]int32{}, countMax: map[string]int32{}, cnts: map[string][]string{}, tbs: map[string]int{}}
+		h.srv = bed.NewLimiterServer(bed.LimiterOptions{LeadAll: true, Shards: 1 + i%3})
+		nu := g.Range(8, 16)
+		for u := 0; u < nu; u++ {
+			name := fmt.Sprintf("ov%d-%d", i%7, u)
+			h.ups = append(h.ups, name)
+			h.allocMax[name] = 1000
+			c := &proxyv1alpha1.UpstreamCluster{ObjectMeta: metav1.ObjectMeta{Name: name}}
+			c.Spec.FlowControl.Schemas = []proxyv1alpha1.FlowControlSchema{
+				{Name: allocSchema, Strategy: proxyv1alpha1.GlobalAllocateLimit, FlowControlSchemaConfiguration: proxyv1alpha1.FlowControlSchemaConfiguration{
+					GlobalMaxRequestsInflight: &proxyv1alpha1.MaxRequestsInflightFlowControlSchema{Max: 1000}}},
+			}
+			for k := 0; k < 2; k++ {
+				key := fmt.Sprintf("%s/cnt%d", name, k)
+				h.cnts[name] = append(h.cnts[name], key)
+				h.countMax[key] = 50
+				c.Spec.FlowControl.Schemas = append(c.Spec.FlowControl.Schemas, proxyv1alpha1.FlowControlSchema{Name: keySchema(key), Strategy: proxyv1alpha1.GlobalCountLimit,
+					FlowControlSchemaConfiguration: proxyv1alpha1.FlowControlSchemaConfiguration{GlobalMaxRequestsInflight: &proxyv1alpha1.MaxRequestsInflightFlowControlSchema{Max: 50}}})
+			}
+			if err := h.srv.ApplyUpstream(c); err != nil {
+				r.Inconclusive("ApplyUpstream failed: " + err.Error())
+				return
+			}
+		}
+		h.logf("server with %d shard(s); upstreams %v (alloc 1000, two globalCount max-in-flight schemas of 50 each)", h.srv.Shards, h.ups)
+		a, b := h.join(), h.join()
+		for _, w := range []*inst{a, b} {
+			for _, up := range h.ups {
+				h.report(w, up)
+				h.report(w, up) // the second report carries the instance label the timeout pass selects by
+				for _, key := range h.cnts[up] {
+					h.acquire(w, key, int32(g.Range(1, 10)))
+				}
+			}
+		}
+		h.silence(a)
+		_ = h.srv.Limiter.Heartbeat(b.id)
+		// Nothing else starts or ends goroutines in this phase (one attempt at a time, no clean-up goroutine left, see above), so
+		// "more goroutines than just before the pass" right after the heartbeat means the pass's goroutine has not ended yet;
+		// the (slower) goroutine dump confirms it by name when it is still there a little later.
+		n0 := runtime.NumGoroutine()
+		h.srv.Handle.CleanupTimeoutClient()
+		t1 := time.Now()
+		_ = h.srv.Limiter.Heartbeat(a.id) // gw comes back, old identity
+		overlapped := runtime.NumGoroutine() > n0
+		if overlapped && !noCleanupGoroutine() {
+			r.Count("return_overlaps_confirmed_by_goroutine_dump", 1)
+		}
+		h.logf("timeout pass; %s heartbeats again right after it returned (clean-up goroutine still running: %v)", a.id, overlapped)
+		r.Count("return_attempts", 1)
+		if overlapped {
+			r.Count("return_overlaps_achieved", 1)
+		}
+		if !vkit.WaitFor(5*time.Second, noCleanupGoroutine) {
+			r.Inconclusive("a cleanupTimeoutClient goroutine was still present 5 s after the pass")
+			return
+		}
+		r.Eval(1)
+		cls := "overlap-not-observed"
+		if overlapped {
+			cls = "returned-during-cleanup"
+		}
+		hb, ok := h.srv.Handle.Heartbeats()[a.id]
+		if !ok || hb.Before(t1) {
+			h.violate("C18/live-instance/heartbeat-forgotten/"+cls,
+				fmt.Sprintf("instance %s was found dead by a timeout pass and sent a heartbeat again right after the pass returned; once the pass's goroutine had finished, the server's heartbeat record for it is present=%v (time before the return: %v) - the instance keeps heartbeating but is no longer known as a client", a.id, ok, ok && hb.Before(t1)))
+		}
+		// a new life: what it reports from now on is the recorded state of an instance that keeps sending heartbeats
+		a.live, a.expired = true, false
+		a.quota, a.reports, a.count = map[string]int32{}, map[string]int{}, map[string]int32{}
+		for _, up := range h.ups {
+			h.report(a, up)
+			if g.Bool() {
+				h.report(a, up)
+			}
+			h.acquire(a, h.cnts[up][g.Intn(2)], int32(g.Range(1, 10)))
+		}
+		before := h.snap()
+		h.srv.Handle.CleanupUnknownCondition() // deliberately no heartbeat in between: the one from the return is fresh
+		after := h.snap()
+		h.logf("unknown-condition pass (no further heartbeat; the last one of %s is %v old)", a.id, time.Since(t1))
+		for up, q := range before.cond[a.id] {
+			if got, ok := after.cond[a.id][up]; !ok || got != q {
+				h.violate("C18/live-instance/condition-removed/"+cls,
+					fmt.Sprintf("instance %s came back (heartbeat %v ago) and, after the clean-up of its dead period had finished, reported to %s (quota %d); the unknown-condition pass removed that condition (present=%v)", a.id, time.Since(t1), up, q, ok))
+				break
+			}
+		}
+		for key, c := range before.count[a.id] {
+			if got, ok := after.count[a.id][key]; c != 0 && (!ok || got != c) {
+				h.violate("C18/live-instance/count-removed/"+cls,
+					fmt.Sprintf("instance %s came back (heartbeat %v ago) and, after the clean-up of its dead period had finished, reported %d in flight on %s; the unknown-condition pass removed that count (present=%v)", a.id, time.Since(t1), c, key, ok))
+				break
+			}
+		}
+		// the bystander never lapsed
+		for up, q := range before.cond[b.id] {
+			if got, ok := after.cond[b.id][up]; !ok || got != q {
+				h.violate("C18/live-instance/condition-removed/bystander", fmt.Sprintf("instance %s never stopped heartbeating; its condition for %s (quota %d) is gone after the passes", b.id, up, q))
+				break
+			}
+		}
+		if i < 1 {
+			r.Sample(map[string]interface{}{"kind": "return during clean-up", "trace_tail": h.trace[len(h.trace)-4:]})
+		}
+	})
 }
